@@ -656,8 +656,9 @@ def clip(a, a_min=None, a_max=None, out=None, out_like=None, sizing='optimal', m
         val_min = kwargs.pop('a_min', None)
         val_max = kwargs.pop('a_max', None)
 
-        if val_min is not None: val_min *= 2**x.n_frac
-        if val_max is not None: val_max *= 2**x.n_frac
+        # a missing bound does not clip: use the raw limit of the format itself
+        val_min = val_min * 2**x.n_frac if val_min is not None else (-(1 << (x.n_word - 1)) if x.signed else 0)
+        val_max = val_max * 2**x.n_frac if val_max is not None else ((1 << (x.n_word - int(x.signed))) - 1)
 
         return utils.clip(x.val, val_min=val_min, val_max=val_max) * precision_cast(2**(n_frac - x.n_frac))
 
